@@ -62,6 +62,16 @@ func factAtom(ft Fact) (atomID, bool, bool) {
 // on other subjects are dropped first when there are too many); extra lists facts
 // whose atoms must exist; entry restricts the entry worlds.
 func (f *FuncCFG) Worlds(spec *FactSpec, extra []Fact, entry []Fact, focus []string) *WorldResult {
+	return f.worlds(spec, extra, entry, focus, false)
+}
+
+// WorldsFocused tracks only the atoms of the focus subjects (everything else is dropped
+// even when it would fit): cheaper, and immune to unrelated predicates in large functions.
+func (f *FuncCFG) WorldsFocused(spec *FactSpec, extra []Fact, entry []Fact, focus []string) *WorldResult {
+	return f.worlds(spec, extra, entry, focus, true)
+}
+
+func (f *FuncCFG) worlds(spec *FactSpec, extra []Fact, entry []Fact, focus []string, only bool) *WorldResult {
 	r := &WorldResult{f: f, spec: spec, idx: map[atomID]int{}, full: true}
 	seen := map[atomID]bool{}
 	var atoms []atomID
@@ -75,6 +85,9 @@ func (f *FuncCFG) Worlds(spec *FactSpec, extra []Fact, entry []Fact, focus []str
 		addFact(ft)
 	}
 	for _, ft := range entry {
+		addFact(ft)
+	}
+	for _, ft := range spec.Invariants {
 		addFact(ft)
 	}
 	var copies []Effect
@@ -95,6 +108,10 @@ func (f *FuncCFG) Worlds(spec *FactSpec, extra []Fact, entry []Fact, focus []str
 			for _, ef := range spec.Effects(n) {
 				if ef.Assert != nil {
 					addFact(*ef.Assert)
+				}
+				if ef.ImplyIf != nil && ef.ImplyThen != nil {
+					addFact(*ef.ImplyIf)
+					addFact(*ef.ImplyThen)
 				}
 				if ef.CopyTo != "" {
 					copies = append(copies, ef)
@@ -133,16 +150,25 @@ func (f *FuncCFG) Worlds(spec *FactSpec, extra []Fact, entry []Fact, focus []str
 			}
 		}
 	}
+	isFocus := func(a atomID) bool {
+		for _, fs := range focus {
+			if a.Subj == fs || strings.HasPrefix(a.Subj, fs+".") || strings.HasPrefix(a.Subj, fs+"[") {
+				return true
+			}
+		}
+		return false
+	}
+	if only {
+		var keep []atomID
+		for _, a := range atoms {
+			if isFocus(a) {
+				keep = append(keep, a)
+			}
+		}
+		atoms = keep
+	}
 	if len(atoms) > maxAtoms {
 		r.full = false
-		isFocus := func(a atomID) bool {
-			for _, fs := range focus {
-				if a.Subj == fs || strings.HasPrefix(a.Subj, fs+".") || strings.HasPrefix(a.Subj, fs+"[") {
-					return true
-				}
-			}
-			return false
-		}
 		sort.SliceStable(atoms, func(i, j int) bool { return isFocus(atoms[i]) && !isFocus(atoms[j]) })
 		atoms = atoms[:maxAtoms]
 	}
@@ -236,6 +262,11 @@ func (r *WorldResult) get(w world, a atomID) (bool, bool) {
 
 // consistent applies the implications between atoms of one subject.
 func (r *WorldResult) consistent(w world) bool {
+	for _, ft := range r.spec.Invariants {
+		if !r.sat(w, ft) {
+			return false
+		}
+	}
 	for i, a := range r.atoms {
 		v := w&(1<<uint(i)) != 0
 		switch a.Dim {
@@ -351,9 +382,20 @@ func (r *WorldResult) compat(cond ast.Expr, truth bool, w world) bool {
 }
 
 func (r *WorldResult) transfer(s map[world]struct{}, n ast.Node) map[world]struct{} {
+	selfCopy := map[string]bool{}
+	if r.spec.Effects != nil {
+		for _, ef := range r.spec.Effects(n) {
+			if ef.CopyTo != "" && ef.CopyTo == ef.CopyFrom {
+				selfCopy[ef.CopyTo] = true
+			}
+		}
+	}
 	if keys := r.f.assignedKeys(n); len(keys) > 0 {
 		var free []int
 		for i, a := range r.atoms {
+			if selfCopy[a.Subj] && a.Dim != "M" && a.Dim != "DM" {
+				continue
+			}
 			for _, key := range keys {
 				if strings.Contains(a.Subj, key) {
 					free = append(free, i)
@@ -373,7 +415,7 @@ func (r *WorldResult) transfer(s map[world]struct{}, n ast.Node) map[world]struc
 		return s
 	}
 	for _, ef := range r.spec.Effects(n) {
-		if ef.CopyTo != "" {
+		if ef.CopyTo != "" && ef.CopyTo != ef.CopyFrom {
 			out := map[world]struct{}{}
 			for w := range s {
 				nw := w
@@ -406,6 +448,19 @@ func (r *WorldResult) transfer(s map[world]struct{}, n ast.Node) map[world]struc
 				}
 			}
 			s = out
+		}
+		if ef.ImplyIf != nil && ef.ImplyThen != nil {
+			if a, _, ok := factAtom(*ef.ImplyIf); ok {
+				if _, tracked := r.idx[a]; tracked {
+					out := map[world]struct{}{}
+					for w := range s {
+						if !r.sat(w, *ef.ImplyIf) || r.sat(w, *ef.ImplyThen) {
+							out[w] = struct{}{}
+						}
+					}
+					s = out
+				}
+			}
 		}
 	}
 	return s
